@@ -269,3 +269,27 @@ void h_scheduler(void) {
   if (ctx_blocked && n_pre_run > 0) OBL(res == pre_run[0] && count_in(post_run, n_post_run, ctx) == 0, "sched.blocked_caller_not_queued: a terminated or still-waiting caller is not put on the runnable queue; the head runs next");
   REACH();
 }
+
+/* thread-terminate!: a running or blocked thread is marked terminated with the terminate error as its result and made runnable so
+ * that the scheduler can reap it; a thread that has ALREADY terminated keeps its result (thread-join! must still return it). */
+static struct vm_pair_t term_err, result_obj;
+void h_thread_terminate(void) {
+  sexp ctx = setup(); __CPROVER_assume(!in_paused0 && in_refuel0 && !in_wait0);
+  int k = 3, was_paused = count_in(pre_paused, n_pre_paused, T(k)), was_run = count_in(pre_run, n_pre_run, T(k));
+  int done = nondet_bool(); __CPROVER_assume(!(done && (was_paused || was_run)));          /* a finished thread is on no list */
+  term_err.h.tag = SEXP_EXCEPTION; verif_register(&term_err); result_obj.h.tag = SEXP_PAIR; verif_register(&result_obj);
+  vm_globals_obj.data[SEXP_G_THREAD_TERMINATE_ERROR] = (sexp)&term_err;
+  th3.refuel = done ? 0 : 500; th3.errorp = 0; th3.result = (sexp)&result_obj; th3.child = NULL;
+  sexp r = sexp_thread_terminate(ctx, NULL, 1, T(k));
+  views(); queue_wf();
+  OBL(r == SEXP_FALSE, "terminate.result: #f unless the caller terminates itself");
+  if (done) {
+    OBL(th3.result == (sexp)&result_obj && th3.errorp == 0 && th3.refuel == 0, "terminate.finished_keeps_result: terminating a thread that has already finished leaves its result for thread-join!");
+    OBL(same_seq(pre_paused, n_pre_paused, post_paused, n_post_paused) && same_seq(pre_run, n_pre_run, post_run, n_post_run), "terminate.finished_frame: nothing moves");
+  } else {
+    OBL(th3.refuel == 0 && th3.errorp == 1 && th3.result == (sexp)&term_err, "terminate.marks: a live thread is marked terminated with the terminate error as its result");
+    OBL(count_in(post_paused, n_post_paused, T(k)) == 0 && count_in(post_run, n_post_run, T(k)) == (was_paused || was_run), "terminate.unblocked: a paused victim becomes runnable (once), so that the scheduler reaps it");
+    for (int j = 1; j <= 2; j++) OBL(count_in(post_paused, n_post_paused, T(j)) == count_in(pre_paused, n_pre_paused, T(j)) && count_in(post_run, n_post_run, T(j)) == count_in(pre_run, n_pre_run, T(j)), "terminate.others: every other thread stays where it was");
+  }
+  REACH();
+}
